@@ -202,7 +202,14 @@ def instances_cached(types, reduced):
 # ---------------------------------------------------------------- running one move on both sides
 def ref_move(code, state, env=None, rev=False):
     try:
-        return ('ok', E.run(code, list(state), env, fuel=3000, rec_reversed=rev))
+        res = E.run(code, list(state), env, fuel=3000, rec_reversed=rev)
+        if rev:
+            # under the non-Michelson reversed convention a well-typed body can leave an ill-typed result: the implementation's
+            # dynamic type assertions turn that into a run-time error
+            static = E.typecheck(code, [t for t, _ in state])
+            if static is not E.FAILS and [t for t, _ in res] != static:
+                return ('fail', 'ill-typed result under the reversed LAMBDA_REC convention')
+        return ('ok', res)
     except E.Failwith as f:
         return ('failwith', (f.t, f.v))
     except E.RuntimeFail as f:
